@@ -145,6 +145,25 @@ def programs(pt):
         return pt.Seq(x.store(pt.Txn.fee() % pt.Int(9) + pt.Int(1)), pt.Assert(x.load() > pt.Int(0)),
                       pt.Return(pt.ScratchLoad(index_expression=pt.Int(5)) == pt.Txn.fee() % pt.Int(9) + pt.Int(1)) if hasattr(pt, "ScratchLoad") else pt.Return(pt.Int(1)))
 
+    @prog("sub-tail-cond-default-rejects")
+    def _():
+        # the LAST statement of a none-typed routine is a Cond whose default arm leaves the program while the other arms fall through to
+        # the routine's end: the compiler must still append the return to the caller (has_return of the Cond is False)
+        @pt.Subroutine(pt.TealType.none)
+        def dispatch(op: pt.Expr) -> pt.Expr:
+            return pt.Cond([op == pt.Int(1), pt.App.globalPut(pt.Bytes("n"), pt.Int(1))],
+                           [op == pt.Int(2), pt.App.globalPut(pt.Bytes("n"), pt.Int(2))],
+                           [pt.Int(1), pt.Reject()])
+        @pt.Subroutine(pt.TealType.none)
+        def wipe() -> pt.Expr:
+            return pt.App.globalDel(pt.Bytes("n"))
+        @pt.Subroutine(pt.TealType.uint64)
+        def pick(op: pt.Expr) -> pt.Expr:
+            return pt.If(op == pt.Int(7)).Then(pt.Return(pt.Int(70))).ElseIf(op == pt.Int(8)).Then(pt.Return(pt.Int(80))).Else(pt.Seq(pt.Pop(op), pt.Return(pt.Int(90))))
+        return pt.Seq(dispatch(pt.Int(2)), dispatch(pt.Int(1)), pt.If(pt.Txn.fee() == pt.Int(123456789)).Then(wipe()),
+                      pt.Log(pt.Itob(pick(pt.Int(8)) + pick(pt.Int(3)))),
+                      pt.Return(pt.And(pt.App.globalGet(pt.Bytes("n")) == pt.Int(1), pick(pt.Int(7)) == pt.Int(70))))
+
     @prog("none-sub-if-else-return")
     def _():
         c = pt.ScratchVar(pt.TealType.uint64, 30)
